@@ -24,10 +24,22 @@ def calledBack : FSt → Bool
 
 /-- a pending item of the verifiers stream that cannot touch the chain: a fetched block whose
 `storeTask` will find the context done -/
+def isBlock : Option VItem → Bool
+  | some (.block _ _) => true
+  | _ => false
+
 def CancelledBlock (s : St) (k : Nat) : Prop :=
-  ∃ req b, s.vq[k]? = some (.block req b) ∧ s.cancelled = true
+  isBlock s.vq[k]? = true ∧ s.cancelled = true
+
+/-- block numbers along the chain are consecutive (a consequence of `Store`'s number check; all that
+is needed here of the well-formedness `Linked`) -/
+def Consec : Chain → Prop
+  | [] => True
+  | [_] => True
+  | b :: b' :: tl => b.num = b'.num + 1 ∧ Consec (b' :: tl)
 
 structure Inv (cfg : Cfg) (s : St) : Prop where
+  mono : Consec s.chain
   ord1 : s.fnext ≤ s.fs.length
   ord2 : ∀ j, j < s.fnext → calledBack (s.f j) = true
   ord3 : ∀ j, s.fnext ≤ j → j < s.fs.length → calledBack (s.f j) = false
@@ -83,11 +95,11 @@ theorem getElem?_append_v (l : List VItem) (x : VItem) (k : Nat) :
     · simp [List.getElem?_append_left lt]
     · rw [List.getElem?_eq_none (by simp; omega), List.getElem?_eq_none (by omega)]
 
-theorem Inv.init (cfg : Cfg) (c : Chain) : Inv cfg (St.init c) := by
-  constructor <;> simp [St.init, St.f, St.chain, Impl.init, armedSnap, calledBack, notDone]
+theorem Inv.init (cfg : Cfg) (c : Chain) (hc : Consec c) : Inv cfg (St.init c) := by
+  constructor <;> first | exact hc | simp [St.init, St.f, St.chain, Impl.init, armedSnap, calledBack, notDone]
 
 theorem inv_spawn {cfg : Cfg} {s : St} (hi : Inv cfg s) : Inv cfg (step cfg s .spawn) := by
-  obtain ⟨o1, o2, o3, o4, o5, n1, n2, n3, t1, t2, a1, a2, a3, q, d1, d2⟩ := hi
+  obtain ⟨mo, o1, o2, o3, o4, o5, n1, n2, n3, t1, t2, a1, a2, a3, q, d1, d2⟩ := hi
   simp only [St.f, St.chain, CancelledBlock] at *
   constructor <;> simp only [step, St.f, St.chain, CancelledBlock, getD_append_f, List.length_append, List.length_singleton] <;>
     grind [notDone, armedSnap, calledBack]
@@ -95,7 +107,7 @@ theorem inv_spawn {cfg : Cfg} {s : St} (hi : Inv cfg s) : Inv cfg (step cfg s .s
 
 macro "pipe_tac " k:term : tactic =>
   `(tactic| (constructor <;> simp only [setF, St.f, St.chain, CancelledBlock, $k:term, getElem?_append_v,
-      List.length_append, List.length_singleton, List.length_set] <;> grind [notDone, armedSnap, calledBack]))
+      List.length_append, List.length_singleton, List.length_set] <;> grind [notDone, armedSnap, calledBack, isBlock]))
 
 theorem inv_fetchOk {cfg : Cfg} {s : St} (hi : Inv cfg s) (i : Nat) (b : Blk) :
     Inv cfg (step cfg s (.fetchOk i b)) := by
@@ -104,7 +116,7 @@ theorem inv_fetchOk {cfg : Cfg} {s : St} (hi : Inv cfg s) (i : Nat) (b : Blk) :
   | run =>
     simp only
     have key := getD_set_f (f_lt (by rw [hf]; simp : s.f i ≠ .over))
-    obtain ⟨o1, o2, o3, o4, o5, n1, n2, n3, t1, t2, a1, a2, a3, q, d1, d2⟩ := hi
+    obtain ⟨mo, o1, o2, o3, o4, o5, n1, n2, n3, t1, t2, a1, a2, a3, q, d1, d2⟩ := hi
     simp only [St.f, St.chain, CancelledBlock] at *
     pipe_tac key
   | _ => exact hi
@@ -118,7 +130,7 @@ theorem inv_fetchCancelled {cfg : Cfg} {s : St} (hi : Inv cfg s) (i : Nat) :
     by_cases hc : s.cancelled = true
     · simp only [hc, ↓reduceIte]
       have key := getD_set_f (f_lt (by rw [hf]; simp : s.f i ≠ .over))
-      obtain ⟨o1, o2, o3, o4, o5, n1, n2, n3, t1, t2, a1, a2, a3, q, d1, d2⟩ := hi
+      obtain ⟨mo, o1, o2, o3, o4, o5, n1, n2, n3, t1, t2, a1, a2, a3, q, d1, d2⟩ := hi
       simp only [St.f, St.chain, CancelledBlock] at *
       pipe_tac key
     · simp only [hc]; exact hi
@@ -141,7 +153,7 @@ theorem inv_fetchErr {cfg : Cfg} {s : St} (hi : Inv cfg s) (i : Nat) :
         simp only [g', Bool.false_eq_true, ↓reduceIte]
         have key := getD_set_f (f_lt (by rw [hf]; simp : s.f i ≠ .over))
         have nh : nextHeight s.chain = hd.num + 1 := by rw [hc]; rfl
-        obtain ⟨o1, o2, o3, o4, o5, n1, n2, n3, t1, t2, a1, a2, a3, q, d1, d2⟩ := hi
+        obtain ⟨mo, o1, o2, o3, o4, o5, n1, n2, n3, t1, t2, a1, a2, a3, q, d1, d2⟩ := hi
         simp only [St.f, St.chain, CancelledBlock] at *
         have hge : s.fnext ≤ i := by
           by_cases lt : i < s.fnext
@@ -157,14 +169,14 @@ theorem inv_fetchErr {cfg : Cfg} {s : St} (hi : Inv cfg s) (i : Nat) :
           have := n1 c
           omega
         have hpend : ∀ k, s.vdone ≤ k → k < s.vq.length →
-            ∃ req b, s.vq[k]? = some (VItem.block req b) ∧ s.cancelled = true := by
+            isBlock s.vq[k]? = true ∧ s.cancelled = true := by
           intro k h1 h2
           cases hcc : s.cancelled with
           | false => have := hnc hcc; omega
           | true =>
             have hk : s.vq[k]? = some s.vq[k] := List.getElem?_eq_getElem h2
             cases hv : s.vq[k] with
-            | block req b => exact ⟨req, b, by rw [hk, hv], rfl⟩
+            | block req b => exact ⟨by rw [hk, hv]; rfl, rfl⟩
             | revert i' hd' tl' d' =>
               exfalso
               rw [hv] at hk
@@ -207,7 +219,7 @@ theorem inv_disarm {cfg : Cfg} {s : St} (hi : Inv cfg s) (i : Nat)
   have ne : s.f i ≠ .over := by
     rcases hf with ⟨hd, tl, h⟩ | ⟨hd, tl, rh, lh, h⟩ <;> rw [h] <;> simp
   have key := getD_set_f (f_lt ne)
-  obtain ⟨o1, o2, o3, o4, o5, n1, n2, n3, t1, t2, a1, a2, a3, q, d1, d2⟩ := hi
+  obtain ⟨mo, o1, o2, o3, o4, o5, n1, n2, n3, t1, t2, a1, a2, a3, q, d1, d2⟩ := hi
   simp only [St.f, St.chain, CancelledBlock] at *
   pipe_tac key
 
@@ -217,7 +229,7 @@ theorem inv_toGotLocal {cfg : Cfg} {s : St} (hi : Inv cfg s) (i : Nat) (hd : Blk
     (hne : (rh.hash == lh.hash) = false) (hcl : cfg.confirmLatest = true) :
     Inv cfg (setF s i (.gotLocal hd tl rh lh)) := by
   have key := getD_set_f (f_lt (by rw [hf]; simp : s.f i ≠ .over))
-  obtain ⟨o1, o2, o3, o4, o5, n1, n2, n3, t1, t2, a1, a2, a3, q, d1, d2⟩ := hi
+  obtain ⟨mo, o1, o2, o3, o4, o5, n1, n2, n3, t1, t2, a1, a2, a3, q, d1, d2⟩ := hi
   simp only [St.f, St.chain, CancelledBlock] at *
   pipe_tac key
 
@@ -228,7 +240,7 @@ theorem inv_toDecided {cfg : Cfg} {s : St} (hi : Inv cfg s) (i : Nat) (hd : Blk)
   have ne : s.f i ≠ .over := by
     rcases hf with h | ⟨rh, lh, h⟩ <;> rw [h] <;> simp
   have key := getD_set_f (f_lt ne)
-  obtain ⟨o1, o2, o3, o4, o5, n1, n2, n3, t1, t2, a1, a2, a3, q, d1, d2⟩ := hi
+  obtain ⟨mo, o1, o2, o3, o4, o5, n1, n2, n3, t1, t2, a1, a2, a3, q, d1, d2⟩ := hi
   simp only [St.f, St.chain, CancelledBlock] at *
   pipe_tac key
 
@@ -286,6 +298,436 @@ theorem inv_confirm {cfg : Cfg} {s : St} (hi : Inv cfg s) (i : Nat) (cb : Option
         (fun _ => hc)
       exact inv_toDecided hi i hd tl _ (Or.inr ⟨rh, lh, hf⟩) hdec
   | _ => exact hi
+
+
+theorem inv_fcb_nothing {cfg : Cfg} {s : St} (hi : Inv cfg s) (hf : s.f s.fnext = .retNothing) :
+    Inv cfg { setF s s.fnext .over with fnext := s.fnext + 1 } := by
+  have key := getD_set_f (f_lt (by rw [hf]; simp : s.f s.fnext ≠ .over))
+  have hc : s.cancelled = true := by
+    cases h : s.cancelled with
+    | true => rfl
+    | false => exact absurd hf (hi.nc2 h s.fnext)
+  obtain ⟨mo, o1, o2, o3, o4, o5, n1, n2, n3, t1, t2, a1, a2, a3, q, d1, d2⟩ := hi
+  simp only [St.f, St.chain, CancelledBlock] at *
+  pipe_tac key
+
+theorem inv_fcb_block {cfg : Cfg} {s : St} (hi : Inv cfg s) (b : Blk) (hf : s.f s.fnext = .retBlock b) :
+    Inv cfg { setF s s.fnext .over with fnext := s.fnext + 1, vq := s.vq ++ [.block (s.start + s.fnext) b] } := by
+  have key := getD_set_f (f_lt (by rw [hf]; simp : s.f s.fnext ≠ .over))
+  obtain ⟨mo, o1, o2, o3, o4, o5, n1, n2, n3, t1, t2, a1, a2, a3, q, d1, d2⟩ := hi
+  simp only [St.f, St.chain, CancelledBlock] at *
+  pipe_tac key
+
+theorem inv_fcb_revert {cfg : Cfg} {s : St} (hi : Inv cfg s) (hd : Blk) (tl : Chain) (d : Dec)
+    (hf : s.f s.fnext = .decided hd tl d) :
+    Inv cfg { setF s s.fnext (.queued hd tl d s.vq.length) with
+      fnext := s.fnext + 1, vq := s.vq ++ [.revert s.fnext hd tl d] } := by
+  have key := getD_set_f (f_lt (by rw [hf]; simp : s.f s.fnext ≠ .over))
+  have h3 := hi.arm3 s.fnext hd tl (by rw [hf]; rfl) (by rw [hf]; rfl)
+  obtain ⟨mo, o1, o2, o3, o4, o5, n1, n2, n3, t1, t2, a1, a2, a3, q, d1, d2⟩ := hi
+  simp only [St.f, St.chain, CancelledBlock] at *
+  pipe_tac key
+
+theorem inv_fcb {cfg : Cfg} {s : St} (hi : Inv cfg s) : Inv cfg (step cfg s .fcb) := by
+  simp only [step]
+  cases hf : s.f s.fnext with
+  | retNothing => exact inv_fcb_nothing hi hf
+  | retBlock b => exact inv_fcb_block hi b hf
+  | decided hd tl d => exact inv_fcb_revert hi hd tl d hf
+  | _ => exact hi
+
+
+/-! facts about the serial machine's steps that the goroutine-level invariant needs -/
+
+theorem succession_stored_num {c : Chain} {b : Blk} (h : succession c b = .stored) : b.num = nextHeight c := by
+  unfold succession at h
+  by_cases e : nextHeight c = b.num
+  · exact e.symm
+  · simp [e] at h
+
+theorem deliver_cancelled (cfg : Cfg) (m : Impl) (req : Nat) (b : Blk) (ht : m.task = none) :
+    (m.step cfg (.deliver req b true)).1.node = m.node ∧ (m.step cfg (.deliver req b true)).1.task = none := by
+  simp only [Impl.step, ht]
+  cases b.ok <;> simp [ht]
+
+theorem deliver_live (cfg : Cfg) (m : Impl) (req : Nat) (b : Blk) (ht : m.task = none) :
+    let r := (m.step cfg (.deliver req b false)).1
+    (cancelsAfter m.node.chain b false = true → r.node = m.node ∧ r.task = none) ∧
+    (b.ok = true → succession m.node.chain b = .stored → r.node.chain = b :: m.node.chain ∧ r.task = none) ∧
+    (b.ok = true → succession m.node.chain b = .parentMismatch → r.node = m.node ∧ r.task = some (mismatchLpv cfg b)) := by
+  simp only [Impl.step, ht, cancelsAfter]
+  cases hok : b.ok with
+  | false => simp [ht]
+  | true =>
+    cases hs : succession m.node.chain b <;> simp [ht, onStored]
+
+theorem startTask_node (cfg : Cfg) (m : Impl) (d : Dec) :
+    (startTask cfg m d).node = m.node ∧ (startTask cfg m d).task = some d.lpv := by
+  refine ⟨?_, rfl⟩
+  simp only [startTask, Impl.step]
+  cases m.task with
+  | some _ => rfl
+  | none =>
+    simp only
+    cases d.confirm with
+    | none => simp only; split <;> rfl
+    | some b =>
+      simp only
+      cases cfg.confirmLatest <;> simp only [Bool.false_eq_true, ↓reduceIte] <;> split <;> rfl
+
+theorem consec_tail {hd : Blk} {tl : Chain} (h : Consec (hd :: tl)) :
+    Consec tl ∧ nextHeight tl ≤ hd.num := by
+  cases tl with
+  | nil => exact ⟨trivial, by simp [nextHeight]⟩
+  | cons b' tl' => exact ⟨h.2, by simp [nextHeight, h.1]⟩
+
+theorem consec_cons {c : Chain} {b : Blk} (h : Consec c) (hn : b.num = nextHeight c) : Consec (b :: c) := by
+  cases c with
+  | nil => trivial
+  | cons hd tl => exact ⟨by simpa [nextHeight] using hn, h⟩
+
+/-- one iteration of `revertTask`: the chain stays or loses its head, the task stays or ends -/
+theorem iter_facts (cfg : Cfg) (m : Impl) (ans : Option Blk) (revOk : Bool) (lpv : Nat) (ht : m.task = some lpv) :
+    let r := (m.step cfg (.iter ans revOk)).1
+    (r.node.chain = m.node.chain ∨ r.node.chain = m.node.chain.tail) ∧ (r.task = none ∨ r.task = some lpv) := by
+  simp only [Impl.step, ht]
+  cases hc : m.node.chain with
+  | nil => simp [hc]
+  | cons hd tl =>
+    simp only
+    by_cases hle : hd.num ≤ lpv
+    · cases ans with
+      | none =>
+        simp only [hle, ↓reduceIte]
+        cases revertIter cfg lpv hd none with
+        | brk => simp [hc]
+        | revert cont => simp only [revertHead, hc]; cases revOk <;> cases cont <;> simp
+      | some rb =>
+        simp only [hle, ↓reduceIte]
+        cases revertIter cfg lpv hd (some rb) with
+        | brk => simp [hc]
+        | revert cont => simp only [revertHead, hc]; cases revOk <;> cases cont <;> simp
+    · simp only [hle, ↓reduceIte]
+      cases revertIter cfg lpv hd ans with
+      | brk => simp [hc]
+      | revert cont => simp only [revertHead, hc]; cases revOk <;> cases cont <;> simp
+
+
+macro "state_tac" : tactic =>
+  `(tactic| (constructor <;> simp only [St.f, St.chain, CancelledBlock] <;> grind [notDone, armedSnap, calledBack, isBlock, nextHeight]))
+
+/-- a fetched block is next in the verifiers stream and the context is live: no fetcher is inside a
+positive reorg check, none has a revert task waiting -/
+theorem no_armed_when_live {cfg : Cfg} {s : St} (hi : Inv cfg s) (hc : s.cancelled = false)
+    (hb : isBlock s.vq[s.vdone]? = true) (hlt : s.vdone < s.vq.length) :
+    ∀ j, armedSnap (s.f j) = none := by
+  intro j
+  cases ha : armedSnap (s.f j) with
+  | none => rfl
+  | some p =>
+    exfalso
+    obtain ⟨hd, tl⟩ := p
+    cases hcb : calledBack (s.f j) with
+    | false =>
+      have := ((hi.arm3 j hd tl ha hcb).1 s.vdone (Nat.le_refl _) hlt).2
+      rw [hc] at this; cases this
+    | true =>
+      cases hf : s.f j with
+      | queued hd' tl' d k0 =>
+        have h2 := hi.arm2 j hd' tl' d k0 hf
+        by_cases e : k0 = s.vdone
+        · rw [e] at h2; rw [h2.2.1] at hb; simp [isBlock] at hb
+        · have := (h2.2.2 s.vdone (Nat.le_refl _) (by omega)).2
+          rw [hc] at this; cases this
+      | _ => rw [hf] at ha hcb <;> simp [armedSnap, calledBack] at ha hcb
+
+/-- `storeTask` of a fetched block that changes nothing and leaves the context done -/
+theorem inv_vcb_noop {cfg : Cfg} {s : St} (hi : Inv cfg s) (m' : Impl) (ob : List Obs) (ev : List Ev)
+    (ht : s.impl.task = none) (hn : m'.node = s.impl.node) (ht' : m'.task = none)
+    (hb : isBlock s.vq[s.vdone]? = true) (hlt : s.vdone < s.vq.length) :
+    Inv cfg { s with impl := m', obs := ob, evs := ev, vdone := s.vdone + 1, cancelled := true } := by
+  obtain ⟨mo, o1, o2, o3, o4, o5, n1, n2, n3, t1, t2, a1, a2, a3, q, d1, d2⟩ := hi
+  simp only [St.f, St.chain, CancelledBlock] at *
+  state_tac
+
+
+/-- `storeTask` stored the block (`flip` = the mode changed: `resetStreams()`) -/
+theorem inv_vcb_stored {cfg : Cfg} {s : St} (hi : Inv cfg s) (m' : Impl) (ob : List Obs) (ev : List Ev)
+    (b : Blk) (flip : Bool)
+    (ht : s.impl.task = none) (hc : s.cancelled = false) (hna : ∀ j, armedSnap (s.f j) = none)
+    (hn : m'.node.chain = b :: s.chain) (hnum : b.num = nextHeight s.chain) (ht' : m'.task = none)
+    (hlt : s.vdone < s.vq.length) :
+    Inv cfg { s with impl := m', obs := ob, evs := ev, vdone := s.vdone + 1, cancelled := flip } := by
+  have hmono := consec_cons hi.mono hnum
+  obtain ⟨mo, o1, o2, o3, o4, o5, n1, n2, n3, t1, t2, a1, a2, a3, q, d1, d2⟩ := hi
+  simp only [St.f, St.chain, CancelledBlock] at *
+  state_tac
+
+/-- `Store` answered `ErrParentDoesNotMatchHead`: `revertTask` starts inside the callback -/
+theorem inv_vcb_mismatch {cfg : Cfg} {s : St} (hi : Inv cfg s) (m' : Impl) (ob : List Obs) (ev : List Ev)
+    (lpv : Nat)
+    (ht : s.impl.task = none) (hc : s.cancelled = false) (hna : ∀ j, armedSnap (s.f j) = none)
+    (hn : m'.node = s.impl.node) (ht' : m'.task = some lpv) (hlt : s.vdone < s.vq.length) :
+    Inv cfg { s with impl := m', obs := ob, evs := ev, vdone := s.vdone + 1, cancelled := false } := by
+  obtain ⟨mo, o1, o2, o3, o4, o5, n1, n2, n3, t1, t2, a1, a2, a3, q, d1, d2⟩ := hi
+  simp only [St.f, St.chain, CancelledBlock] at *
+  state_tac
+
+
+/-- the revert task a fetcher submitted is next in the verifiers stream: it starts, on the chain the
+fetcher saw -/
+theorem inv_vcb_revert {cfg : Cfg} {s : St} (hi : Inv cfg s) (m' : Impl) (ev : List Ev)
+    (i : Nat) (hd : Blk) (tl : Chain) (d : Dec) (lpv : Nat)
+    (hitem : s.vq[s.vdone]? = some (.revert i hd tl d))
+    (hn : m'.node = s.impl.node) (ht' : m'.task = some lpv) :
+    Inv cfg { setF s i .over with impl := m', vdone := s.vdone + 1, evs := ev } := by
+  have hq := hi.qi s.vdone i hd tl d (Nat.le_refl _) hitem
+  have key := getD_set_f (f_lt (by rw [hq]; simp : s.f i ≠ .over))
+  have harm := hi.arm1 i hd tl (by rw [hq]; rfl)
+  have hlt : i < s.fnext := by
+    by_cases lt : i < s.fnext
+    · exact lt
+    · have := hi.ord3 i (by omega) (f_lt (by rw [hq]; simp : s.f i ≠ .over))
+      rw [hq] at this; simp [calledBack] at this
+  have huniq : ∀ j hd' tl', armedSnap (s.f j) = some (hd', tl') → j = i := by
+    intro j hd' tl' h
+    have a := hi.arm1 j hd' tl' h
+    have e := a.1
+    rw [harm.1] at e
+    injection e with e1 _
+    have := a.2.1
+    have := harm.2.1
+    rw [e1] at this
+    omega
+  have huniq' : ∀ j, j ≠ i → armedSnap (s.f j) = none := by
+    intro j hne
+    cases h : armedSnap (s.f j) with
+    | none => rfl
+    | some p => exact absurd (huniq j p.1 p.2 h) hne
+  have hnh : nextHeight s.chain = s.start + i := by rw [harm.1]; simp [nextHeight, harm.2.1]
+  obtain ⟨mo, o1, o2, o3, o4, o5, n1, n2, n3, t1, t2, a1, a2, a3, q, d1, d2⟩ := hi
+  simp only [St.f, St.chain, CancelledBlock] at *
+  constructor <;> simp only [setF, St.f, St.chain, CancelledBlock, key] <;>
+    grind [notDone, armedSnap, calledBack, isBlock]
+
+
+theorem inv_vcb {cfg : Cfg} {s : St} (hi : Inv cfg s) (flip : Bool) : Inv cfg (step cfg s (.vcb flip)) := by
+  simp only [step]
+  cases ht : s.impl.task with
+  | some _ => exact hi
+  | none =>
+    simp only
+    cases hv : s.vq[s.vdone]? with
+    | none => exact hi
+    | some item =>
+      have hlt : s.vdone < s.vq.length := by
+        by_cases lt : s.vdone < s.vq.length
+        · exact lt
+        · rw [List.getElem?_eq_none (by omega)] at hv; cases hv
+      cases item with
+      | revert i hd tl d =>
+        simp only
+        have := startTask_node cfg s.impl d
+        exact inv_vcb_revert hi _ _ i hd tl d d.lpv hv this.1 this.2
+      | block req b =>
+        simp only
+        have hb : isBlock s.vq[s.vdone]? = true := by rw [hv]; rfl
+        cases hc : s.cancelled with
+        | true =>
+          have := deliver_cancelled cfg s.impl req b ht
+          simp only [Bool.true_or]
+          exact inv_vcb_noop hi _ _ _ ht this.1 this.2 hb hlt
+        | false =>
+          simp only [Bool.false_or]
+          have hl := deliver_live cfg s.impl req b ht
+          have hna := no_armed_when_live hi hc hb hlt
+          cases hok : b.ok with
+          | false =>
+            have hca : cancelsAfter s.impl.node.chain b false = true := by simp [cancelsAfter, hok]
+            have hcf : cancelsAfter s.chain b flip = true := by simp [cancelsAfter, hok]
+            rw [hcf]
+            have := hl.1 hca
+            exact inv_vcb_noop hi _ _ _ ht this.1 this.2 hb hlt
+          | true =>
+            cases hs : succession s.impl.node.chain b with
+            | stored =>
+              have hcf : cancelsAfter s.chain b flip = flip := by simp [cancelsAfter, hok, St.chain, hs]
+              rw [hcf]
+              have := hl.2.1 hok hs
+              exact inv_vcb_stored hi _ _ _ b flip ht hc hna this.1 (succession_stored_num hs) this.2 hlt
+            | badNumber =>
+              have hca : cancelsAfter s.impl.node.chain b false = true := by simp [cancelsAfter, hs]
+              have hcf : cancelsAfter s.chain b flip = true := by simp [cancelsAfter, St.chain, hs]
+              rw [hcf]
+              have := hl.1 hca
+              exact inv_vcb_noop hi _ _ _ ht this.1 this.2 hb hlt
+            | rootMismatch =>
+              have hca : cancelsAfter s.impl.node.chain b false = true := by simp [cancelsAfter, hs]
+              have hcf : cancelsAfter s.chain b flip = true := by simp [cancelsAfter, St.chain, hs]
+              rw [hcf]
+              have := hl.1 hca
+              exact inv_vcb_noop hi _ _ _ ht this.1 this.2 hb hlt
+            | parentMismatch =>
+              have hcf : cancelsAfter s.chain b flip = false := by simp [cancelsAfter, hok, St.chain, hs]
+              rw [hcf]
+              have := hl.2.2 hok hs
+              exact inv_vcb_mismatch hi _ _ _ _ ht hc hna this.1 this.2 hlt
+
+/-- one iteration of the `revertTask` running inside the verifiers' callback goroutine -/
+theorem inv_iter {cfg : Cfg} {s : St} (hi : Inv cfg s) (ans : Option Blk) (revOk : Bool) :
+    Inv cfg (step cfg s (.iter ans revOk)) := by
+  simp only [step]
+  cases ht : s.impl.task with
+  | none => exact hi
+  | some lpv =>
+    simp only
+    have hf := iter_facts cfg s.impl ans revOk lpv ht
+    generalize (s.impl.step cfg (.iter ans revOk)) = r at hf
+    have hmono : Consec r.1.node.chain ∧ nextHeight r.1.node.chain ≤ nextHeight s.chain := by
+      rcases hf.1 with h | h
+      · rw [h]; exact ⟨hi.mono, Nat.le_refl _⟩
+      · rw [h]
+        cases hc : s.impl.node.chain with
+        | nil => simp [St.chain, hc, Consec]
+        | cons hd tl =>
+          have := consec_tail (by have := hi.mono; rw [St.chain, hc] at this; exact this : Consec (hd :: tl))
+          simp only [List.tail_cons, St.chain, hc]
+          exact ⟨this.1, Nat.le_succ_of_le this.2⟩
+    have hna := hi.tk2 lpv ht
+    have htk := hi.tk1 lpv ht
+    obtain ⟨mo, o1, o2, o3, o4, o5, n1, n2, n3, t1, t2, a1, a2, a3, q, d1, d2⟩ := hi
+    simp only [St.f, St.chain, CancelledBlock] at *
+    rcases hf.2 with h | h
+    · simp only [h, Option.isNone_none, Bool.or_true]
+      state_tac
+    · simp only [h, Option.isNone_some, Bool.or_false]
+      state_tac
+
+theorem inv_newGen {cfg : Cfg} {s : St} (hi : Inv cfg s) : Inv cfg (step cfg s .newGen) := by
+  simp only [step]
+  split
+  · rename_i h
+    simp only [Bool.and_eq_true, beq_iff_eq, Option.isNone_iff_eq_none] at h
+    obtain ⟨mo, o1, o2, o3, o4, o5, n1, n2, n3, t1, t2, a1, a2, a3, q, d1, d2⟩ := hi
+    constructor <;> simp_all [St.f, St.chain, CancelledBlock, armedSnap, calledBack, notDone]
+  · exact hi
+
+
+theorem Inv.step {cfg : Cfg} {s : St} (hi : Inv cfg s) (a : Act) : Inv cfg (step cfg s a) := by
+  cases a with
+  | spawn => exact inv_spawn hi
+  | fetchOk i b => exact inv_fetchOk hi i b
+  | fetchCancelled i => exact inv_fetchCancelled hi i
+  | fetchErr i => exact inv_fetchErr hi i
+  | localRead i rh => exact inv_localRead hi i rh
+  | confirm i cb => exact inv_confirm hi i cb
+  | fcb => exact inv_fcb hi
+  | vcb flip => exact inv_vcb hi flip
+  | iter ans revOk => exact inv_iter hi ans revOk
+  | newGen => exact inv_newGen hi
+
+theorem Inv.run {cfg : Cfg} {s : St} (hi : Inv cfg s) (acts : List Act) : Inv cfg (run cfg s acts) := by
+  induction acts generalizing s with
+  | nil => exact hi
+  | cons a as ih => exact ih (hi.step a)
+
+/-- THE REVERT TASK A FETCHER SUBMITTED STARTS AS THE SERIAL MACHINE WOULD START IT: the lpv the
+fetcher goroutine computed from its own (earlier, separate) reads is what `isReverting` yields on the
+chain at the moment the task starts. -/
+theorem startTask_eq_step (cfg : Cfg) (m : Impl) (d : Dec) (ht : m.task = none)
+    (hd : isReverting cfg m.node.chain d.next (some d.latest) d.confirm = some d.lpv) :
+    m.step cfg (.reorgDetected d.next (some d.latest) d.confirm) = (startTask cfg m d, []) := by
+  simp only [startTask, Impl.step, ht]
+  cases hc : d.confirm with
+  | none => simp only [hc] at hd; simp [hd]
+  | some b =>
+    simp only [hc] at hd
+    cases hcl : cfg.confirmLatest <;> simp [hd]
+
+/-- one step of one goroutine performs no event of the serial machine, or exactly one -/
+def StepRefines (cfg : Cfg) (s s' : St) : Prop :=
+  (s'.impl = s.impl ∧ s'.evs = s.evs ∧ s'.obs = s.obs) ∨
+  ∃ e, s'.evs = s.evs ++ [e] ∧ s'.impl = (s.impl.step cfg e).1 ∧ s'.obs = s.obs ++ (s.impl.step cfg e).2
+
+theorem step_refines {cfg : Cfg} {s : St} (hi : Inv cfg s) (a : Act) : StepRefines cfg s (step cfg s a) := by
+  cases a with
+  | spawn => exact Or.inl ⟨rfl, rfl, rfl⟩
+  | fetchOk i b => simp only [step]; split <;> exact Or.inl ⟨rfl, rfl, rfl⟩
+  | fetchCancelled i => simp only [step]; split <;> (try split) <;> exact Or.inl ⟨rfl, rfl, rfl⟩
+  | fetchErr i =>
+    simp only [step]; split
+    · split
+      · exact Or.inl ⟨rfl, rfl, rfl⟩
+      · split <;> exact Or.inl ⟨rfl, rfl, rfl⟩
+    · exact Or.inl ⟨rfl, rfl, rfl⟩
+  | localRead i rh =>
+    simp only [step]; split
+    · split
+      · exact Or.inl ⟨rfl, rfl, rfl⟩
+      · split
+        · exact Or.inl ⟨rfl, rfl, rfl⟩
+        · split
+          · exact Or.inl ⟨rfl, rfl, rfl⟩
+          · split
+            · exact Or.inl ⟨rfl, rfl, rfl⟩
+            · split <;> exact Or.inl ⟨rfl, rfl, rfl⟩
+    · exact Or.inl ⟨rfl, rfl, rfl⟩
+  | confirm i cb =>
+    simp only [step]; split
+    · split <;> exact Or.inl ⟨rfl, rfl, rfl⟩
+    · exact Or.inl ⟨rfl, rfl, rfl⟩
+  | fcb => simp only [step]; split <;> exact Or.inl ⟨rfl, rfl, rfl⟩
+  | newGen => simp only [step]; split <;> exact Or.inl ⟨rfl, rfl, rfl⟩
+  | iter ans revOk =>
+    simp only [step]
+    cases ht : s.impl.task with
+    | none => exact Or.inl ⟨rfl, rfl, rfl⟩
+    | some lpv => exact Or.inr ⟨.iter ans revOk, rfl, rfl, rfl⟩
+  | vcb flip =>
+    simp only [step]
+    cases ht : s.impl.task with
+    | some _ => exact Or.inl ⟨rfl, rfl, rfl⟩
+    | none =>
+      simp only
+      cases hv : s.vq[s.vdone]? with
+      | none => exact Or.inl ⟨rfl, rfl, rfl⟩
+      | some item =>
+        cases item with
+        | block req b => exact Or.inr ⟨.deliver req b s.cancelled, rfl, rfl, rfl⟩
+        | revert i hd tl d =>
+          simp only
+          have hq := hi.qi s.vdone i hd tl d (Nat.le_refl _) hv
+          have harm := hi.arm1 i hd tl (by rw [hq]; rfl)
+          have hd2 := hi.dat2 i hd tl d (Or.inr ⟨_, hq⟩)
+          have hs := startTask_eq_step cfg s.impl d ht (by rw [show s.impl.node.chain = s.chain from rfl, harm.1]; exact hd2)
+          refine Or.inr ⟨.reorgDetected d.next (some d.latest) d.confirm, rfl, ?_, ?_⟩
+          · rw [hs]
+          · rw [hs]; simp [setF]
+
+theorem impl_run_cons (cfg : Cfg) (i : Impl) (e : Ev) (es : List Ev) :
+    Impl.run cfg i (e :: es) =
+      ((Impl.run cfg (i.step cfg e).1 es).1, (i.step cfg e).2 ++ (Impl.run cfg (i.step cfg e).1 es).2) := rfl
+
+/-- EVERY RUN OF THE GOROUTINES IS A RUN OF THE SERIAL MACHINE: whatever the schedule and the source,
+the events logged (`evs`) replayed through `Impl.run` from the state at the start give exactly the
+node, the running task and the observations of the pipeline. -/
+theorem run_refines {cfg : Cfg} {s : St} (hi : Inv cfg s) (acts : List Act) :
+    ∃ es, (run cfg s acts).evs = s.evs ++ es ∧
+      (Impl.run cfg s.impl es).1 = (run cfg s acts).impl ∧
+      (run cfg s acts).obs = s.obs ++ (Impl.run cfg s.impl es).2 := by
+  induction acts generalizing s with
+  | nil => exact ⟨[], by simp [run], rfl, by simp [run, Impl.run]⟩
+  | cons a as ih =>
+    obtain ⟨es, e1, e2, e3⟩ := ih (hi.step a)
+    rcases step_refines hi a with ⟨h1, h2, h3⟩ | ⟨e, h1, h2, h3⟩
+    · refine ⟨es, ?_, ?_, ?_⟩
+      · simp only [run]; rw [e1, h2]
+      · simp only [run]; rw [← e2, h1]
+      · simp only [run]; rw [e3, h3, h1]
+    · refine ⟨e :: es, ?_, ?_, ?_⟩
+      · simp only [run]; rw [e1, h1]; simp
+      · simp only [run, impl_run_cons]; rw [← e2, h2]
+      · simp only [run, impl_run_cons]; rw [e3, h3, h2]; simp
 
 
 end Juno.C06.Pipe
